@@ -1218,3 +1218,14 @@ def run(P, rep, tier):
     rep.rule('R04.32', 'the extent of an object declared through a typedef name of a variable-length array type is fixed when the typedef is reached (C11 6.7.8p8): the size computation a later '
                        'declaration / sizeof evaluates for the type bound to the typedef name (compute_vla_size) does not reach the typedef\'s length expressions again, at any dimension', floor=2)
     r_typedef_vla_extent(P, rep, 'R04.32')
+    from ..lib_c04_abi import r_param_home, r_result_object
+    rep.rule('R04.33', 'a parameter lvalue designates the bytes the caller stored: for every parameter class, with the registers free and exhausted and behind an even and an odd number of 8-byte '
+                       'stack slots, assign_lvar_offsets() gives a parameter passed in memory the offset 16(%rbp) + its psABI position in the argument area (aligned to max(8, alignment of the type), as the caller '
+                       'pads it) and a register parameter a home inside the frame that the prologue fills byte for byte from its registers; homes are disjoint (same judgement as C06 R06.7)', floor=150)
+    r_param_home(cg, P, rep, 'R04.33')
+    rep.rule('R04.34', 'the object a call of aggregate type designates holds the returned value: each eightbyte is stored from the register psABI 3.2.3 returns it in (rax/rdx, xmm0/xmm1 counted per class, '
+                       '%st(0)), only bytes of the result object are written - also for sizes that are not a multiple of 8 - and the callee side loads exactly the bytes of the returned object '
+                       '(same judgement as C06 R06.5)', floor=100)
+    rep.rule('R04.35', 'a copy into an object writes exactly the bytes [0, size) of it: the copy `return v;` emits for an aggregate returned in memory, judged by the bytes its stores write (any store widths), '
+                       'gives byte i of the caller\'s object byte i of the source for every i in [0, size) and writes no other byte, for sizes that are and are not multiples of 8', floor=12)
+    r_result_object(cg, P, rep, 'R04.34', 'R04.35')
